@@ -84,7 +84,7 @@ def run : IO Unit := do
       | some msg => out.putStrLn s!"R stop {msg}"
       | none => out.putStrLn "R ok"
       -- the observing call: an empty simulation with DUMP -all
-      let sd := simToDump { s with stopped := none, simNo := 0 } []
+      let sd := simToDump { s with stopped := none, errPending := false, simNo := 0 } []
       for (k, n, tok) in visible sd.maps do
         out.putStrLn s!"E {k.name} {n} {tok}"
       for (tok, p) in sd.prov.reverse.drop printed do
